@@ -244,6 +244,9 @@ func marshalMsg(codec string, m proto.Message) []byte {
 // travel in the URL).
 func (r *reqState) clientMsg(i int) proto.Message {
 	p := payloadFor(r.spec.payloadID(), i, 'C', r.spec.Msgs[i])
+	if r.method.mkBody != nil && r.spec.Proto == "http" {
+		return r.method.mkBody(p)
+	}
 	return r.method.mkReq(p, "")
 }
 
@@ -623,7 +626,11 @@ func muxOptions(sc *MuxScenario, world *World) []larking.MuxOption {
 	k := &sc.Knobs
 	var rules []*annotations.HttpRule
 	if !sc.NoDefaultRules {
-		rules = append(rules, &annotations.HttpRule{Selector: "grpc.testing.TestService.FullDuplexCall", Pattern: &annotations.HttpRule_Custom{Custom: &annotations.CustomHttpPattern{Kind: "websocket", Path: "/v1/ws/duplex"}}, Body: "*"})
+		rules = append(rules,
+			&annotations.HttpRule{Selector: "grpc.testing.TestService.FullDuplexCall", Pattern: &annotations.HttpRule_Custom{Custom: &annotations.CustomHttpPattern{Kind: "websocket", Path: "/v1/ws/duplex"}}, Body: "*"},
+			&annotations.HttpRule{Selector: "grpc.testing.TestService.FullDuplexCall", Pattern: &annotations.HttpRule_Post{Post: "/v1/duplex/{response_status.message}"}, Body: "payload"},
+			&annotations.HttpRule{Selector: "grpc.testing.TestService.UnaryCall", Pattern: &annotations.HttpRule_Post{Post: "/v1/unary/{response_size}"}, Body: "payload"},
+		)
 	}
 	for i := range sc.Rules {
 		rules = append(rules, sc.Rules[i].httpRule())
